@@ -52,19 +52,19 @@ structure Drained (s s' : S) (lines : List Bytes) : Prop where
   dropped : s'.dropped = s.dropped
   readLog : s'.readLog = s.readLog ++ lines
 
-theorem iter_nofull (c : Cfg) (s : S) (l : Bytes) (h : Quiet s) (hk : s.recs.length + 1 ≠ c.recsPerEvent) :
+theorem iter_nofull (c : Cfg) (s : S) (l : Bytes) (h1 : s.pc = .top) (h2 : s.cancelled = false)
+    (hk : s.recs.length + 1 ≠ c.recsPerEvent) :
     run c s [.step, .next (.record l), .step, .step] =
       { s with pc := .top, recs := s.recs ++ [l], pos := s.pos + l.length, readLog := s.readLog ++ [l] } := by
-  obtain ⟨h1, h2, h3⟩ := h
-  simp [run, step, h1, h2, h3, hk]
+  simp [run, step, h1, h2, hk]
 
-theorem iter_full (c : Cfg) (s : S) (l : Bytes) (h : Quiet s) (hk : s.recs.length + 1 = c.recsPerEvent) :
+theorem iter_full (c : Cfg) (s : S) (l : Bytes) (h1 : s.pc = .top) (h2 : s.cancelled = false)
+    (hk : s.recs.length + 1 = c.recsPerEvent) :
     run c s [.step, .next (.record l), .step, .send, .confirm, .setOffset, .step] =
       { s with pc := .top, recs := [], pos := s.pos + l.length, offset := s.pos + l.length,
                readLog := s.readLog ++ [l], confirmed := s.confirmed ++ (s.recs ++ [l]),
                ends := s.ends ++ [s.pos + l.length] } := by
-  obtain ⟨h1, h2, h3⟩ := h
-  simp [run, step, h1, h2, h3, hk]
+  simp [run, step, h1, h2, hk]
 
 theorem iter_eof_empty (c : Cfg) (s : S) (h : Quiet s) (hr : s.recs = []) :
     run c s [.step, .next .eof, .step, .wake, .step] = { s with pc := .top } := by
@@ -101,7 +101,7 @@ theorem drain_drains (c : Cfg) (hk : 1 ≤ c.recsPerEvent) : ∀ (lines : List B
   | l :: ls, s, hq, hlt, hoff => by
     simp only [drain]
     by_cases hfull : s.recs.length + 1 = c.recsPerEvent
-    · rw [if_pos hfull, run_append, iter_full c s l hq hfull]
+    · rw [if_pos hfull, run_append, iter_full c s l hq.pc hq.nc hfull]
       obtain ⟨h1, h2, h3⟩ := hq
       have ih := drain_drains c hk ls
         { s with pc := .top, recs := [], pos := s.pos + l.length, offset := s.pos + l.length,
@@ -114,7 +114,7 @@ theorem drain_drains (c : Cfg) (hk : 1 ≤ c.recsPerEvent) : ∀ (lines : List B
       · rw [i3]; simp [List.append_assoc]
       · rw [i4]; simp [bytesOf, Nat.add_assoc]
       · rw [i8]; simp [List.append_assoc]
-    · rw [if_neg hfull, run_append, iter_nofull c s l hq hfull]
+    · rw [if_neg hfull, run_append, iter_nofull c s l hq.pc hq.nc hfull]
       obtain ⟨h1, h2, h3⟩ := hq
       have ih := drain_drains c hk ls
         { s with pc := .top, recs := s.recs ++ [l], pos := s.pos + l.length, readLog := s.readLog ++ [l] }
@@ -126,6 +126,86 @@ theorem drain_drains (c : Cfg) (hk : 1 ≤ c.recsPerEvent) : ∀ (lines : List B
       · rw [i3]; simp [List.append_assoc]
       · rw [i4]; simp [bytesOf, Nat.add_assoc]
       · rw [i8]; simp [List.append_assoc]
+
+/-! ## the same quiet period for a worker that was told to run until EOF (its file was rotated or replaced) -/
+
+/-- a loop head of a worker told to run until EOF -/
+structure QuietU (s : S) : Prop where
+  pc : s.pc = .top
+  nc : s.cancelled = false
+  ws : s.wstate = .untilEof
+
+/-- the worker has ended through the "EOF reached" rule having shipped the pending lines -/
+structure Stopped (s s' : S) (lines : List Bytes) : Prop where
+  pc : s'.pc = .done
+  byEof : s'.stoppedByEof = true
+  ws : s'.wstate = .stopped
+  recs : s'.recs = []
+  confirmed : s'.confirmed = s.confirmed ++ s.recs ++ lines
+  pos : s'.pos = s.pos + bytesOf lines
+  offset : s'.offset = s'.pos
+  start : s'.start = s.start
+  dropped : s'.dropped = s.dropped
+
+theorem iter_eof_empty_u (c : Cfg) (s : S) (h : QuietU s) (hr : s.recs = []) :
+    Stopped s (run c s [.step, .next .eof, .step, .wake, .step]) [] ∨ s.offset ≠ s.pos := by
+  obtain ⟨h1, h2, h3⟩ := h
+  by_cases ho : s.offset = s.pos
+  · left
+    cases hsb : c.sampleBefore <;>
+      (constructor <;> simp [run, step, finish, h1, h2, h3, hr, hsb, ho])
+  · exact Or.inr ho
+
+theorem iter_eof_nonempty_u (c : Cfg) (s : S) (h : QuietU s) (hr : s.recs ≠ []) :
+    Stopped s (run c s [.step, .next .eof, .step, .send, .confirm, .setOffset, .step]) [] := by
+  obtain ⟨h1, h2, h3⟩ := h
+  have : s.recs.isEmpty = false := by cases hs : s.recs with
+    | nil => exact absurd hs hr
+    | cons a b => rfl
+  cases hsb : c.sampleBefore <;>
+    (constructor <;> simp [run, step, finish, h1, h2, h3, this, hsb])
+
+/-- **a worker told to run until EOF ships the pending complete lines and stops at the first EOF** -/
+theorem drain_stops (c : Cfg) (hk : 1 ≤ c.recsPerEvent) : ∀ (lines : List Bytes) (s : S), QuietU s →
+    s.recs.length < c.recsPerEvent → s.offset + bytesOf s.recs = s.pos →
+    Stopped s (run c s (drain c.recsPerEvent s.recs.length lines)) lines
+  | [], s, hq, hlt, hoff => by
+    simp only [drain]
+    by_cases hr : s.recs = []
+    · have h0 : s.recs.length = 0 := by simp [hr]
+      rw [if_pos h0]
+      rcases iter_eof_empty_u c s hq hr with h | h
+      · exact h
+      · exfalso; apply h; rw [hr] at hoff; simpa using hoff
+    · have h0 : ¬ s.recs.length = 0 := by
+        intro h0; exact hr (List.eq_nil_of_length_eq_zero h0)
+      rw [if_neg h0]
+      exact iter_eof_nonempty_u c s hq hr
+  | l :: ls, s, hq, hlt, hoff => by
+    simp only [drain]
+    obtain ⟨h1, h2, h3⟩ := hq
+    by_cases hfull : s.recs.length + 1 = c.recsPerEvent
+    · rw [if_pos hfull, run_append, iter_full c s l h1 h2 hfull]
+      have ih := drain_stops c hk ls
+        { s with pc := .top, recs := [], pos := s.pos + l.length, offset := s.pos + l.length,
+                 readLog := s.readLog ++ [l], confirmed := s.confirmed ++ (s.recs ++ [l]),
+                 ends := s.ends ++ [s.pos + l.length] }
+        ⟨rfl, h2, h3⟩ (by simp only [List.length_nil]; omega) (by simp)
+      simp only [List.length_nil] at ih
+      obtain ⟨i1, i2, i3, i4, i5, i6, i7, i8, i9⟩ := ih
+      refine ⟨i1, i2, i3, i4, ?_, ?_, i7, i8, i9⟩
+      · rw [i5]; simp [List.append_assoc]
+      · rw [i6]; simp [bytesOf, Nat.add_assoc]
+    · rw [if_neg hfull, run_append, iter_nofull c s l h1 h2 hfull]
+      have ih := drain_stops c hk ls
+        { s with pc := .top, recs := s.recs ++ [l], pos := s.pos + l.length, readLog := s.readLog ++ [l] }
+        ⟨rfl, h2, h3⟩ (by simp only [List.length_append, List.length_cons, List.length_nil]; omega)
+        (by simp only [bytesOf_append, bytesOf_single]; omega)
+      simp only [List.length_append, List.length_cons, List.length_nil, Nat.zero_add] at ih
+      obtain ⟨i1, i2, i3, i4, i5, i6, i7, i8, i9⟩ := ih
+      refine ⟨i1, i2, i3, i4, ?_, ?_, i7, i8, i9⟩
+      · rw [i5]; simp [List.append_assoc]
+      · rw [i6]; simp [bytesOf, Nat.add_assoc]
 
 end Logrange.ScanWorker
 
